@@ -91,6 +91,36 @@ def _registered_default(tree, path_tail, name, ctor):
     raise ExtractionError('registerGlobalValue(…%s, %r, …) not found' % (path_tail, name))
 
 
+def _channel_key_shape(dt):
+    """every ChannelsDictionary method that takes a channel name keys the table the same way:
+    `channel = channel.lower()` first (the table itself is an IrcDict).  getChannel, setChannel and the
+    channels.conf reader (which calls setChannel) must agree, or a channel stored under one spelling is
+    not found under the same spelling."""
+    cls = None
+    for n in dt.body:
+        if isinstance(n, ast.ClassDef) and n.name == 'ChannelsDictionary':
+            cls = n
+    if cls is None:
+        raise ExtractionError('class ChannelsDictionary not found')
+    want = "Assign(targets=[Name(id='channel', ctx=Store())], value=Call(func=Attribute(value=Name(id='channel', ctx=Load()), attr='lower', ctx=Load()), args=[], keywords=[]))"
+    seen = []
+    for f in cls.body:
+        if not isinstance(f, ast.FunctionDef):
+            continue
+        if 'channel' in [a.arg for a in f.args.args]:
+            body = [b for b in f.body if not (isinstance(b, ast.Expr) and isinstance(b.value, ast.Constant) and isinstance(b.value.value, str))]
+            first = ast.dump(body[0]) if body else ''
+            if first != want:
+                raise ExtractionError('ChannelsDictionary.%s: expected to start with `channel = channel.lower()` like every other '
+                                      'method keyed by a channel name, found %s' % (f.name, first[:120]))
+            seen.append(f.name)
+        if f.name == '__init__':
+            if "attr='channels'" not in ast.dump(f) or 'IrcDict' not in ast.dump(f):
+                raise ExtractionError('ChannelsDictionary.__init__: expected self.channels = ircutils.IrcDict()')
+    if sorted(seen) != ['getChannel', 'setChannel']:
+        raise ExtractionError('ChannelsDictionary: methods keyed by a channel name are %r, expected getChannel and setChannel' % (seen,))
+
+
 @extractor('IrcDbCaps')
 def gen_ircdb_caps():
     ut = parse('src/ircutils.py')
@@ -98,6 +128,7 @@ def gen_ircdb_caps():
     _toLower_shape(ut)
     chantypes, channellen = _isChannel_defaults(ut)
     dt = parse('src/ircdb.py')
+    _channel_key_shape(dt)
     off = literal(find_assign(dt, 'defaultOff', cls='IrcChannel'), 'IrcChannel.defaultOff')
     if not (isinstance(off, tuple) and all(isinstance(x, str) for x in off)):
         raise ExtractionError('IrcChannel.defaultOff: expected a tuple of str')
